@@ -158,7 +158,7 @@ js::Value toJson(const RunPlan& p) {
 	w.set("fillA", p.wp.fillA); w.set("fillT", p.wp.fillT); w.set("startLogger", p.wp.startLogger);
 	w.set("featureMask", (unsigned long long) p.wp.featureMask); w.set("guardRequests", p.wp.guardRequests);
 	w.set("dropPct", p.wp.dropPct); w.set("dupPct", p.wp.dupPct); w.set("delayMax", p.wp.delayMax);
-	w.set("allowOverflow", p.wp.allowOverflow);
+	w.set("allowOverflow", p.wp.allowOverflow); w.set("maxTasks", p.wp.maxTasks);
 	js::Value av = js::Value::array(); for (auto& a : p.wp.avoid) av.push(a);
 	w.set("avoid", av);
 	v.set("world", w);
@@ -177,7 +177,7 @@ bool fromJson(const js::Value& v, RunPlan& p) {
 	p.wp.fillA = int(w.at("fillA").asInt()); p.wp.fillT = int(w.at("fillT").asInt(1)); p.wp.startLogger = w.at("startLogger").asBool(true);
 	p.wp.featureMask = uint32_t(w.at("featureMask").asInt(0xFFFFFFFFll)); p.wp.guardRequests = w.at("guardRequests").asBool(true);
 	p.wp.dropPct = int(w.at("dropPct").asInt()); p.wp.dupPct = int(w.at("dupPct").asInt()); p.wp.delayMax = int(w.at("delayMax").asInt());
-	p.wp.allowOverflow = w.at("allowOverflow").asBool(false);
+	p.wp.allowOverflow = w.at("allowOverflow").asBool(false); p.wp.maxTasks = int(w.at("maxTasks").asInt(-1));
 	for (auto& a : w.at("avoid").arr) p.wp.avoid.insert(a.asStr());
 	for (auto& o : v.at("ops").arr) { Op x; if (!opFrom(o, x)) return false; p.ops.push_back(x); }
 	return !p.wp.shape.empty();
@@ -426,6 +426,7 @@ void Harness::onCallback(int state, int method, int injected, const void* self, 
 			case A_PLAN_APPEND: {
 				if (!(caps & CC_PLAN) || !(ncaps & CAP_PLANS)) break;
 				if ((a.kind == K_UTILIZE || a.kind == K_RANDOMIZE) && !(ncaps & CAP_UTILITY)) break;
+				if (world->plan.wp.maxTasks >= 0) { PlanProbe pp; node->probePlans(pp); if (pp.count >= world->plan.wp.maxTasks) break; }
 				const bool wp = a.withPayload && (ncaps & CAP_PAYLOAD);
 				const bool ok = ctl.planAppend(a.a, a.kind, a.b, a.c, wp ? &a.payload : nullptr);
 				x.k = EV_PLAN_EDIT; x.a = A_PLAN_APPEND | (a.a << 8) | (int(a.kind) << 16); x.b = a.b; x.c = a.c | (ok ? 0x10000 : 0); x.hasP = wp; x.p = wp ? a.payload : 0; push(x);
